@@ -25,18 +25,19 @@ def main():
         props = sys.argv[sys.argv.index("--props") + 1].split(",")
     meta = json.load(open(f"{d}/meta.json"))
     props = props or [meta["property"]]
-    MC = "/tmp/mc"
+    MC = "/tmp/mc" + os.environ.get("MUT_SLOT", "")
     if not os.path.isdir(MC):
         sh(f"git -C /repo worktree add --detach {MC} HEAD")
     head = sh("git -C /repo rev-parse HEAD")[1].strip()
     sh(f"git -C {MC} checkout -q --detach {head}; git -C {MC} checkout -q -- .; git -C {MC} clean -fdq -e target")
-    demo = meta.get("demo", "")
-    m = re.search(r"copy to (\S+?)[;,]?\s+run:\s*(.+)$", demo)
+    demo = meta.get("demo") or meta.get("demo_placement") or ""
     res = {"demo_spec": demo}
-    if not m:
+    md = re.search(r"([\w/.-]+/(?:demo|mut)_[\w-]+\.rs)", demo)
+    mc = re.search(r"((?:CARGO_NET_OFFLINE=true )?cargo nextest run .+)$", demo)
+    if not (md and mc):
         res["error"] = "demo field not in the expected form; confirm by hand"
         print(json.dumps(res, indent=1)); return 1
-    dest, cmd = m.group(1), m.group(2).strip().rstrip(".")
+    dest, cmd = md.group(1), mc.group(1).strip().rstrip(".")
     cmd = re.sub(r"cd \S+ && ", "", cmd)
     os.makedirs(os.path.dirname(f"{MC}/{dest}"), exist_ok=True)
     shutil.copy(f"{d}/demo.rs", f"{MC}/{dest}")
